@@ -271,7 +271,9 @@ pub fn post_process_unnamed(model: &str, vars: &[(String, String)]) -> String {
     let text = unhex(p[1]);
     let built = std::panic::catch_unwind(|| -> Result<VerbatimUrl, _> { match p[0] {
         "file" => {
-            let path = pep508_rs::strip_host(&text);
+            // (the harness's own reading of "drop `//localhost` before a `/`, else `//`" — the Lean `stripHost` is compared with the crate's
+            //  `strip_host` separately; using the crate's here would let a slip in it pass unseen)
+            let path = strip_host_spec(&text);
             let path = urlencoding::decode(path).map(|c| c.into_owned()).unwrap_or(path.to_string());
             <VerbatimUrl as UnnamedRequirementUrl>::parse_path(&path, "/work")
         }
@@ -679,6 +681,16 @@ pub fn run(out: &mut Out, tier: &str, seed: u64, prop: &str) {
                 if o1 < o2 { texts.push(format!("pkg @ https://example.org/p-1.0.tar.gz ; {key} {o1} '{b}' or ({key} {o2} '{b}' and 'x' in platform_machine)")); }
             } }
         }
+        // two DIFFERENT keys against the same literal under every pair of operators (a renderer that takes them for negations of one
+        // another drops a term: the text is empty or another marker)
+        for (k1, k2, v) in [("python_full_version", "implementation_version", "3.8"), ("python_version", "implementation_version", "3.8"), ("implementation_version", "python_full_version", "3.8.*"), ("os_name", "sys_platform", "posix"), ("platform_release", "platform_version", "5.4")] {
+            let wild = v.ends_with(".*");
+            for o1 in ops { for o2 in ops {
+                if wild && !(o1 == "==" || o1 == "!=") || wild && !(o2 == "==" || o2 == "!=") { continue; }
+                texts.push(format!("foo ; {k1} {o1} '{v}' or {k2} {o2} '{v}'"));
+                texts.push(format!("foo[bar] @ https://example.org/foo.whl ; {k1} {o1} '{v}' or ({k2} {o2} '{v}' and os_name == 'nt')"));
+            } }
+        }
         for v in ["it's", "x\"y"] { for (l, r) in [("os_name", "in"), ("os_name", "not in")] {
             let q = if v.contains('\'') { '"' } else { '\'' };
             texts.push(format!("pkg ; {q}{v}{q} {r} {l}"));
@@ -854,7 +866,7 @@ pub fn run(out: &mut Out, tier: &str, seed: u64, prop: &str) {
             "ftp://h.org/${VP_HOME_DIR}/a", "ssh://h.org/${VP_TOKEN_1}", "HTTPS://h.org/${VP_HOME_DIR}", "s3://b/${VP_HOME_DIR}/k", "localhost:8080/${VP_HOME_DIR}", "C:\\d\\${VP_HOME_DIR}", "git+ftp://h/${VP_UNSET}/r",
             // file URLs whose FRAGMENT looks like a path with `.` / `..` segments (F23: with the extension feature the path is normalised — the fragment is not part of it)
             "file:///srv/pkg.tar.gz#subdirectory=a/../b", "file:///srv/pkg.tar.gz#subdirectory=src/./core", "file:///srv/pkg.tar.gz#egg=a/../../b", "file://localhost/srv/${VP_HOME_DIR}/p.whl#x/../../y",
-            "file:///srv/p.whl#..", "file:///srv/p.whl#a//b/.", "file:///srv/${VP_EMPTY}p.whl#subdirectory=${VP_HOME_DIR}/../z"];
+            "file:///srv/p.whl#..", "file:///srv/p.whl#a//b/.", "file:localhost/p.whl", "file:localhost/${VP_HOME_DIR}/p.whl", "file:/localhost/p.whl", "file://localhost/localhost/p.whl", "file:localhostx/p", "file:///srv/${VP_EMPTY}p.whl#subdirectory=${VP_HOME_DIR}/../z"];
         let envsets: Vec<Vec<(String, String)>> = vec![
             vec![],
             default_vars(),
@@ -977,7 +989,7 @@ pub fn run(out: &mut Out, tier: &str, seed: u64, prop: &str) {
         // bracket groups that are not at the end, hosts that only resemble `localhost`
         for t in ["1a:b", "+a:b", "-a:b", ".a:b", "a1+-.:b", "a:", ":b", ":", "a", "", "a b:c", "a_b:c", "é:b", "aé:b", "a:b:c", "A:b", " a:b ", "\u{1}a:b\u{1f}", "a\u{a0}:b", "ａ:b",
                   "x[a]", "x[a]y", "x[a][b]", "x]", "x[", "[a]", "x[a]]", "x[[a]", "x[a] ", "[]", "x[]", "é[ü]", "x[a]\u{a0}",
-                  "//localhost", "//localhost/", "//localhostx/y", "//LOCALHOST/p", "/localhost/p", "///p", "//", "/", "//h/p", "//localhost//p", "//localhosté/p"] {
+                  "localhost/pkg.whl", "localhost", "localhost/", "/localhost/x", "localhostx/y", "localhost//x", "//localhost", "//localhost/", "//localhostx/y", "//LOCALHOST/p", "/localhost/p", "///p", "//", "/", "//h/p", "//localhost//p", "//localhosté/p"] {
             url_helpers_case(out, &mut rc, t, &vars);
             out.stat("c19.helper_only_texts");
         }
@@ -1010,7 +1022,7 @@ pub fn run(out: &mut Out, tier: &str, seed: u64, prop: &str) {
     #[cfg(feature = "ext")]
     if prop == "C19" || prop == "C06" {
         let targeted = ["a[b ;c]", "a[b] [c]", "a[[b]]", "a[b]c]", "a[b][c]", "x ; [", "p[a,b,]", "p[,a]", "p[a \u{e9}]", "p[]", "p[ ]", "p[a-]", "p[ a , b ]",
-            "${VP_HOME_DIR}/x[dev]", "p[${VP_EMPTY}]", "${VP_EMPTY}", "file://localhost/p", "file://localhost", "file:p", "FILE:///p", "file:///a%20b#c%2541", "git+https://h/p[x]#egg", "h://x", "hg+static-http://h/p",
+            "${VP_HOME_DIR}/x[dev]", "p[${VP_EMPTY}]", "${VP_EMPTY}", "file://localhost/p", "file://localhost", "file:p", "FILE:///p", "file:localhost/pkg-1.0-py3-none-any.whl[extra] ; python_version >= '3.8'", "file:localhost/p", "file:/localhost/p", "file:localhost", "file:./localhost/p", "file:///a%20b#c%2541", "git+https://h/p[x]#egg", "h://x", "hg+static-http://h/p",
             "p;q", "p; q", "p ;q", "p #c", "p# c", "p\n; m", "p\r x", "p\r\n", "", " ", "[x]", "a]", "a[", "p ; os_name == 'a' x", "p;", "p; ", "p#", "p[x]; ", "p[x]# y", "./a b", "./a b ; os_name == 'a'",
             // malformed extras behind a variable whose value is longer / shorter than its reference, ASCII and not
             "${VP_LONG}/foo-1.0-py3-none-any.whl[dev,]", "${VP_LONG}[,]", "${VP_HOME_DIR}/\u{43f}\u{430}\u{43a}\u{435}\u{442}[dev,]", "${VP_EMPTY}\u{65e5}\u{672c}[a b]", "${VP_LONG}/x[\u{e9}]", "${VP_TOKEN_1}\u{e9}\u{e9}[a,,b]", "./${VP_LONG}[dev ; os_name == 'a'",
@@ -1161,6 +1173,12 @@ fn scheme_of(text: &str) -> Option<&str> {
     if !cs.next()?.is_ascii_alphabetic() { return None; }
     if !cs.all(|c| c.is_ascii_alphanumeric() || matches!(c, '+' | '-' | '.')) { return None; }
     Some(s)
+}
+
+/// independent reading of `strip_host`
+pub fn strip_host_spec(text: &str) -> &str {
+    if let Some(rest) = text.strip_prefix("//localhost") { if rest.starts_with('/') { return rest; } }
+    text.strip_prefix("//").unwrap_or(text)
 }
 
 /// `strip_host` of the implementation, in hex (`panic` if it panics: an in-process call)
